@@ -755,4 +755,12 @@ def ofOptNat : Option Nat → PyVal
   | Option.none => .none
   | some n => .int n
 
+/-! ## x2: additions of the second round (more primitives live in `PkgModel/PyRx.lean`) -/
+
+/-- unary minus on ints / bools -/
+def neg (a : PyVal) : M PyVal :=
+  match asInt a with
+  | some i => pure (.int (-i))
+  | Option.none => throw typeError
+
 end PyRt
